@@ -50,13 +50,61 @@ const FILTERS: [u32; 12] = [0, 35, 33, 31, 47, 44, 34, 1000, 1001, 1002, 9999, 4
 /// HasSubtype edges (parent, child), parent < child so that the type graph is acyclic
 const TYPE_EDGES: [(u32, u32); 9] = [(31, 33), (33, 34), (33, 35), (34, 44), (44, 46), (44, 47), (35, 1000), (1000, 1001), (31, 32)];
 
+/// parallel references of different types between one pair of nodes (and the opposite direction);
+/// delete one of them, then follow the others forwards and inversely
+fn parallel_case(rng: &mut Rng, out: &mut Vec<String>) {
+    out.push("reset".to_string());
+    for (id, nm) in [(1, 1), (2, 2), (3, 3)] {
+        out.push(format!("node {} {}", id, nm));
+    }
+    out.push("ref 33 35 45".to_string());
+    out.push("ref 44 47 45".to_string());
+    let tys = [35u32, 47, 1000, 40];
+    let k = rng.range(2, 4) as usize;
+    let mut present: Vec<u32> = Vec::new();
+    for ty in tys.iter().take(k) {
+        out.push(format!("ref 1 2 {}", ty));
+        present.push(*ty);
+    }
+    if rng.chance(1, 2) {
+        out.push(format!("ref 2 1 {}", rng.pick(&tys)));
+    }
+    out.push("ref 2 3 35".to_string());
+    let queries = |present: &Vec<u32>, out: &mut Vec<String>| {
+        for ty in present.iter().chain([0u32, 33].iter()) {
+            out.push(format!("tr 2 [{}:1:1:1]", ty));
+            out.push(format!("tr 1 [{}:0:1:2]", ty));
+        }
+        out.push("tr 3 [35:1:0:2,0:1:0:1]".to_string());
+        out.push("tr 1 [0:0:0:2,35:0:0:3]".to_string());
+    };
+    queries(&present, out);
+    while !present.is_empty() {
+        let i = rng.below(present.len() as u64) as usize;
+        let ty = present.remove(i);
+        if rng.chance(1, 4) {
+            out.push(format!("delref 2 1 {}", ty)); // the opposite direction: must not disturb 1 → 2
+        }
+        out.push(format!("delref 1 2 {}", ty));
+        let mut all = present.clone();
+        all.push(ty);
+        queries(&all, out);
+    }
+    out.push(format!("delnode {} {}", rng.range(1, 3), b(rng.chance(1, 2))));
+    queries(&vec![35, 47], out);
+}
+
 impl Prop for C31 {
     fn id(&self) -> &'static str {
         "C31"
     }
 
     fn gen(&self, rng: &mut Rng, n: usize, _tier: Tier, out: &mut Vec<String>) {
-        for _ in 0..n {
+        for case in 0..n {
+            if case % 4 == 2 {
+                parallel_case(rng, out);
+                continue;
+            }
             out.push("reset".to_string());
             let u = rng.range(3, 9) as u32;
             // few distinct names so that several nodes share one; names 3 and 53 differ only in namespace
@@ -96,6 +144,16 @@ impl Prop for C31 {
                 }
                 if rng.chance(1, 10) {
                     out.push(format!("node {} {}", rng.range(1, u as i64 + 2), rng.pick(&names)));
+                }
+                if rng.chance(1, 5) {
+                    let s2 = rng.range(1, u as i64 + 1) as u32;
+                    let t2 = rng.range(1, u as i64 + 1) as u32;
+                    if s2 != t2 {
+                        out.push(format!("delref {} {} {}", s2, t2, rng.pick(&[35u32, 35, 47, 46, 40, 1000, 1001, 1002, 9999])));
+                    }
+                }
+                if rng.chance(1, 12) {
+                    out.push(format!("delnode {} {}", rng.range(1, u as i64 + 1), b(rng.chance(1, 2))));
                 }
                 let len = rng.weighted(&[1, 8, 6, 3, 1]);
                 let es: Vec<String> = (0..len)
@@ -322,6 +380,24 @@ impl Runner for R {
                 self.universe.insert(t);
                 self.address_space.write().insert_reference(&id_node(s), &id_node(t), id_node(ty));
                 ("ok".to_string(), Verdict::Ok)
+            }
+            ["delref", s, t, ty] => {
+                let (Ok(s), Ok(t), Ok(ty)) = (s.parse::<u32>(), t.parse::<u32>(), ty.parse::<u32>()) else { return bad() };
+                if s == 0 || t == 0 || ty == 0 || ty == HAS_SUBTYPE {
+                    return bad();
+                }
+                self.universe.insert(s);
+                self.universe.insert(t);
+                let ok = self.address_space.write().delete_reference(&id_node(s), &id_node(t), id_node(ty));
+                (format!("ok {}", b(ok)), Verdict::Ok)
+            }
+            ["delnode", id, dtr] => {
+                let Ok(id) = id.parse::<u32>() else { return bad() };
+                if id == 0 || id > 30 || !(*dtr == "0" || *dtr == "1") {
+                    return bad();
+                }
+                let ok = self.address_space.write().delete(&id_node(id), *dtr == "1");
+                (format!("ok {}", b(ok)), Verdict::Ok)
             }
             ["tr", start, es] => {
                 let Ok(start) = start.parse::<u32>() else { return bad() };
